@@ -45,6 +45,27 @@ type c18Case struct {
 	// Warm: before the input, the same parser lexes a text whose escape the mapper rejects (the failed call must not
 	// leave anything behind)
 	Warm bool `json:"warm,omitempty"`
+	// Layered > 0: the first Layered mappers belong to one parser, the others to a second parser built over the
+	// first one's lexer (Lexer(first.Lexer())): the inner mappers run first
+	Layered int `json:"layered,omitempty"`
+}
+
+// Option values are values: the same one may configure several parsers, over different lexers.
+var c18SharedOptions = map[string]participle.Option{}
+
+func c18SharedOption(m c18Mapper) participle.Option {
+	key := m.Kind + "|" + strings.Join(m.Types, ",")
+	if o, ok := c18SharedOptions[key]; ok {
+		return o
+	}
+	var o participle.Option
+	if m.Kind == "unquote" {
+		o = participle.Unquote(m.Types...)
+	} else {
+		o = participle.Upper(m.Types...)
+	}
+	c18SharedOptions[key] = o
+	return o
 }
 
 func (c *c18Case) input() string {
@@ -174,10 +195,8 @@ func checkC18(c *c18Case, r *vstat.Run) outcome {
 	}
 	for _, m := range c.Mappers {
 		switch m.Kind {
-		case "unquote":
-			opts = append(opts, participle.Unquote(m.Types...))
-		case "upper":
-			opts = append(opts, participle.Upper(m.Types...))
+		case "unquote", "upper":
+			opts = append(opts, c18SharedOption(m))
 		case "record":
 			opts = append(opts, participle.Map(func(t lexer.Token) (lexer.Token, error) {
 				seen = append(seen, seenTok{t.Type, t.Pos})
@@ -187,7 +206,24 @@ func checkC18(c *c18Case, r *vstat.Run) outcome {
 	}
 	var p *participle.Parser[c18Grammar]
 	var err error
-	if pm := guard(func() { p, err = participle.Build[c18Grammar](opts...) }); pm != "" || err != nil {
+	if pm := guard(func() {
+		if c.Layered > 0 && c.Layered < len(c.Mappers) {
+			// opts[0] is the lexer (opts[1] the elision, for the stateful lexer); then one option per mapper
+			first := len(opts) - len(c.Mappers) + c.Layered
+			var inner *participle.Parser[c18Grammar]
+			inner, err = participle.Build[c18Grammar](opts[:first]...)
+			if err != nil {
+				return
+			}
+			outer := []participle.Option{participle.Lexer(inner.Lexer())}
+			if c.Lexer == "stateful" {
+				outer = append(outer, participle.Elide("WS"))
+			}
+			p, err = participle.Build[c18Grammar](append(outer, opts[first:]...)...)
+			return
+		}
+		p, err = participle.Build[c18Grammar](opts...)
+	}); pm != "" || err != nil {
 		return violationf("build", "Build failed: %v %s\ncase %s", err, pm, mustJSON(c))
 	}
 	if c.Warm {
@@ -459,6 +495,14 @@ func TestC18(t *testing.T) {
 			}
 		}
 		c.Warm = rapid.IntRange(0, 3).Draw(t, "warm") == 0
+		if len(c.Mappers) >= 2 && rapid.IntRange(0, 3).Draw(t, "layered") == 0 {
+			c.Layered = rapid.IntRange(1, len(c.Mappers)-1).Draw(t, "layeredat")
+		}
+		if rapid.IntRange(0, 7).Draw(t, "overlap") == 0 {
+			// two mappers on the same tokens, in two layers: unquote below, upper-case above
+			c.Mappers = []c18Mapper{{Kind: "unquote", Types: []string{"String", "Char"}}, {Kind: "upper", Types: []string{"String", "Ident"}}}
+			c.Layered = 1
+		}
 		for _, it := range c.Items {
 			c.ItemHex = append(c.ItemHex, fmt.Sprintf("%x", it))
 		}
